@@ -95,8 +95,13 @@ struct RunResult {
     setup_err: Option<String>,
 }
 
+/// Contention burst for the next `run_split` (object-store backend): the conditional PUTs number
+/// from..from+count of the first run lose their compare-and-swap race (see sim::Contention).
+static CONTENTION: parking_lot::Mutex<Option<(u64, u64)>> = parking_lot::Mutex::new(None);
+
 fn run_split(local_backend: bool, d: &Dataset, fault1: Option<Fault>, fault2: Option<(u64, FaultMode)>) -> RunResult {
     let d = d.clone();
+    let contention = CONTENTION.lock().take();
     sim::run_sim(async move {
         clock::freeze_wall(clock::SIM_EPOCH_NS);
         let ctl = Ctl::new();
@@ -143,6 +148,9 @@ fn run_split(local_backend: bool, d: &Dataset, fault1: Option<Fault>, fault2: Op
         if let Some(f) = fault1.clone() {
             ctl.set_faults(vec![f]);
         }
+        if let Some((from, count)) = contention {
+            ctl.set_contention(Some(sim::Contention { path_contains: ".json".into(), from, count }));
+        }
         let r = {
             let sp = ShardSplitter::new(mk_meta(&ctl, "split"), ctl.store("split"));
             sp.execute_split(&shard).await
@@ -151,6 +159,7 @@ fn run_split(local_backend: bool, d: &Dataset, fault1: Option<Fault>, fault2: Op
         attempts.push(format!("execute_split -> {}", r.as_ref().map(|_| "ok".to_string()).unwrap_or_else(|e| format!("err: {}", e))));
         let mut finished = r.is_ok();
         ctl.set_faults(vec![]);
+        ctl.set_contention(None);
         // ---- crash, then resume on fresh instances
         let mut n = 0;
         while !finished && n < 5 {
@@ -332,6 +341,24 @@ pub fn run(ctx: &Ctx) -> Outcome {
         let n = base.requests_first_run;
         out.count("requests_in_fault_free_split", n);
         out.max("max:requests_in_fault_free_split", n);
+        // lost compare-and-swap races: a burst of 5 (the metadata client's whole retry budget) or 2
+        // (absorbed by the retries) starting at every conditional PUT of the fault-free run
+        if !local_backend {
+            let ncond = base.events.iter().filter(|e| e.call && e.op == "PUT" && e.mode.starts_with("update:") && e.actor == "split").count() as u64;
+            out.max("max:conditional_puts_in_fault_free_split", ncond);
+            for j in 0..ncond {
+                for count in [5u64, 2] {
+                    *CONTENTION.lock() = Some((j, count));
+                    let r = run_split(local_backend, &d, None, None);
+                    out.eval();
+                    out.count("runs_with_lost_cas_burst", 1);
+                    if r.events.iter().any(|e| e.actor == "contender") {
+                        out.count("lost_cas_bursts_that_hit", 1);
+                    }
+                    judge(ctx, &mut out, &d, di, local_backend, None, None, &r);
+                }
+            }
+        }
         for k in 0..n {
             for mode in [FaultMode::Before, FaultMode::After] {
                 let f = Fault { actor: None, index: k, mode };
@@ -392,7 +419,10 @@ fn judge(ctx: &Ctx, out: &mut Outcome, d: &Dataset, di: u64, local_backend: bool
             };
             format!("{}-{}-{}", p, e.op.replace("META:", ""), if e.result.contains("after") { "after-effect" } else { "before-effect" })
         })
-        .unwrap_or_else(|| "no-fault".to_string());
+        .unwrap_or_else(|| if r.events.iter().any(|e| e.actor == "contender") { "lost-cas-burst".to_string() } else { "no-fault".to_string() });
+    if hit && injected.is_empty() {
+        out.count("splits_interrupted_by_retry_exhaustion", 1);
+    }
     if !r.finished {
         out.violation(
             &format!("C14/resume-never-succeeds/{}", class),
